@@ -75,6 +75,11 @@ func (r *Report) add(status, rule, construct string, pos token.Pos, fn, detail, 
 		o.Construct = construct
 		o.Detail = "[" + r.prog.GOOS + "] " + detail
 	}
+	for _, x := range r.Obligs {
+		if x == o {
+			return // identical obligation already recorded (same construct reached by several paths)
+		}
+	}
 	r.Obligs = append(r.Obligs, o)
 }
 
